@@ -162,10 +162,15 @@ fn main() {
     let slice = 64u64;
     let next = AtomicU64::new(lo);
     let done = AtomicU64::new(0);
+    let capped = std::sync::atomic::AtomicBool::new(false);
     let workers = (ctx.threads / 4).max(1);
     std::thread::scope(|s| {
         for _ in 0..workers {
             s.spawn(|| loop {
+                if ctx.past_deadline() {
+                    capped.store(true, Ordering::Relaxed);
+                    break;
+                }
                 let a = next.fetch_add(slice, Ordering::Relaxed);
                 if a >= hi {
                     break;
@@ -223,7 +228,7 @@ fn main() {
             });
         }
     });
-    ctx.note_universe("feature-variants", UniverseStat { total, done: done.load(Ordering::Relaxed), capped: false, note: format!("4 builds x {} grammar universes + {} extra cases (fixtures, fixture windows, 3-object motifs x4): {}", unis.len(), extras.len(), unis.iter().map(|u| u.name.clone()).collect::<Vec<_>>().join(", ")) });
+    ctx.note_universe("feature-variants", UniverseStat { total, done: done.load(Ordering::Relaxed), capped: capped.load(Ordering::Relaxed), note: format!("4 builds x {} grammar universes + {} extra cases (fixtures, fixture windows, 3-object motifs x4): {}", unis.len(), extras.len(), unis.iter().map(|u| u.name.clone()).collect::<Vec<_>>().join(", ")) });
     let mut o = J::obj();
     o.set("universe", J::s("feature-variants"));
     o.set("index", J::i(total - 1));
